@@ -8,33 +8,12 @@
 (* free constructors, so equality of terms is "same preimage tree" for     *)
 (* every leaf content.                                                     *)
 (***************************************************************************)
-EXTENDS Naturals, Sequences, TLC
+EXTENDS MerkleDef, TLC
 
 CONSTANT MaxN            \* largest leaf count explored
 
-Leaf(i)   == <<"L", i>>
-Mid(a, b) == <<"M", a, b>>      \* one compression of a||b from the initial state
-ZERO      == <<"Z">>            \* the all-zero midstate
-
 Levels == 0..31
 Bit(c, l) == (c \div (2^l)) % 2
-
-(***************************************************************************)
-(* The definition the property states: pair adjacent nodes left to right,  *)
-(* promote an unpaired last node unchanged, repeat until one node remains. *)
-(***************************************************************************)
-RECURSIVE PairUp(_)
-PairUp(s) == IF Len(s) = 0 THEN << >>
-             ELSE IF Len(s) = 1 THEN s
-             ELSE << Mid(s[1], s[2]) >> \o PairUp(SubSeq(s, 3, Len(s)))
-
-RECURSIVE Reduce(_)
-Reduce(s) == IF Len(s) = 1 THEN s[1] ELSE Reduce(PairUp(s))
-
-DefSeq(s) == IF Len(s) = 0 THEN ZERO ELSE Reduce(s)
-Def(k)    == DefSeq([i \in 1..k |-> Leaf(i)])
-\* complete subtree over leaves a+1 .. a+2^l
-Block(a, l) == DefSeq([i \in 1..(2^l) |-> Leaf(a + i)])
 
 VARIABLES n, inner, count, level, temp, result, pc
 vars == <<n, inner, count, level, temp, result, pc>>
